@@ -563,6 +563,13 @@ def _check_field_is_hashable(path: tuple[str, ...], x: Any):
     raise ValueError(f"Value at '{path_name}' is not hashable: {e}") from e
 
 
+def _shift_argnums(static_argnums) -> tuple[int, ...]:
+  """Positions among the arguments after ``self`` (``self`` is argument 0)."""
+  if isinstance(static_argnums, int):
+    static_argnums = (static_argnums,)
+  return tuple(i - 1 for i in static_argnums if i > 0)
+
+
 def decorator_lift_transform_cached(transform, class_fn, **trafo_kwargs):
   """Decorator for lifted transform.
 
@@ -581,11 +588,13 @@ def decorator_lift_transform_cached(transform, class_fn, **trafo_kwargs):
     class_fns = (class_fn,)
   prewrapped_fns = [wrap_method_once(class_fn) for class_fn in class_fns]
   trafo_fn = None
-  # Module state (auto-name cursor, ...) the method leaves behind, recorded per
-  # module fingerprint when the method is traced. A jit-cache hit does not run
-  # the Python body, so the state is replayed from here (like the rng counters
-  # in `lift.jit`).
-  states_after: dict[_HashableProxy, Any] = {}
+  # Module state (auto-name cursor, ...) the method leaves behind, recorded when
+  # the method is traced, per module fingerprint and call signature (jax keeps
+  # a trace per static argument value and input shape). A jit-cache hit does
+  # not run the Python body, so the state is replayed from here (like the rng
+  # counters in `lift.jit`).
+  states_after: dict[Any, Any] = {}
+  traced_states: list[Any] = []
 
   @functools.wraps(prewrapped_fns[0])
   def wrapped_fn(self: Module, *args, **kwargs):
@@ -613,7 +622,7 @@ def decorator_lift_transform_cached(transform, class_fn, **trafo_kwargs):
         object.__setattr__(cloned, '_state', self._state.export())
         res = prewrapped_fn(cloned, *args, **kwargs)
         self._state.reimport(cloned._state)
-        states_after[module_hash] = cloned._state.export()
+        traced_states.append(cloned._state.export())
         _test_transformed_return_values(
             res, getattr(class_fn, '__name__', None)
         )
@@ -648,9 +657,21 @@ def decorator_lift_transform_cached(transform, class_fn, **trafo_kwargs):
       # get a hashable proxy object for the Module
       hash_key = _HashableProxy.from_module(self)
 
+      state_key = (
+          hash_key,
+          lift._call_signature(
+              args,
+              kwargs,
+              _shift_argnums(trafo_kwargs.get('static_argnums', ())),
+              trafo_kwargs.get('static_argnames', ()),
+          ),
+      )
+      num_traced = len(traced_states)
       res = trafo_fn(module_scopes, hash_key, *args, **kwargs)
-      if hash_key in states_after:
-        self._state.reimport(states_after[hash_key])
+      if len(traced_states) > num_traced:
+        states_after[state_key] = traced_states.pop()
+      elif state_key in states_after:
+        self._state.reimport(states_after[state_key])
       return res
 
   return wrapped_fn
@@ -712,7 +733,8 @@ def module_class_lift_transform_cached(
     trafo_args, trafo_kwargs = fn_trafo_args
     trafo_fn = None
     # see decorator_lift_transform_cached
-    states_after: dict[_HashableProxy, Any] = {}
+    states_after: dict[Any, Any] = {}
+    traced_states: list[Any] = []
 
     # we need to create a scope-function from our class for the given method
     @functools.wraps(fn)
@@ -739,7 +761,7 @@ def module_class_lift_transform_cached(
           object.__setattr__(cloned, '_state', self._state.export())
           res = fn(cloned, *args, **kwargs)
           self._state.reimport(cloned._state)
-          states_after[module_hash] = cloned._state.export()
+          traced_states.append(cloned._state.export())
           _test_transformed_return_values(res, fn_name)
           return res
 
@@ -750,9 +772,21 @@ def module_class_lift_transform_cached(
         # get a hash for the Module by using its repr as a proxy
         hash_key = _HashableProxy.from_module(self)
 
+        state_key = (
+            hash_key,
+            lift._call_signature(
+                args,
+                kwargs,
+                _shift_argnums(trafo_kwargs.get('static_argnums', ())),
+                trafo_kwargs.get('static_argnames', ()),
+            ),
+        )
+        num_traced = len(traced_states)
         ret = trafo_fn(module_scopes, hash_key, *args, **kwargs)
-        if hash_key in states_after:
-          self._state.reimport(states_after[hash_key])
+        if len(traced_states) > num_traced:
+          states_after[state_key] = traced_states.pop()
+        elif state_key in states_after:
+          self._state.reimport(states_after[state_key])
         return ret
 
     return wrapped_fn
